@@ -7,9 +7,11 @@ laws that implement it the Ei are 6x6 tensors whatever self.dim (a 2D Transverse
 Orthotropic material is decomposed that way, tests/Models/linear_elastic_test.py calls it on 2D
 materials). For Isotropic:
   - it must not raise for a valid material, in 3D and in 2D (plane stress and plane strain);
-  - sum(ci * Ei) must be the 6x6 isotropic matrix the law builds (Isotropic._Behavior(3)), whose in-plane
-    block [xx, yy, xy] is the material's own C when dim = 2;
-  - in plane strain (and 3D) that 6x6 matrix is the 3D law of (E, v);
+  - sum(ci * Ei) must be the 6x6 law of the material - the 3D law of (E, v), as for the other laws; the material's own
+    2D matrix is its reduction: the in-plane block [xx, yy, xy] of the 6x6 STIFFNESS in plane strain, the inverse of the
+    in-plane block of the 6x6 COMPLIANCE in plane stress (the first version of this scenario asked for the in-plane block
+    of the stiffness under plane stress too, i.e. for a 6x6 matrix built with the plane-stress Lame parameter - that is
+    not a 3D law; corrected when the decomposition was repaired, d35172d);
   - the same with per-element parameters (where the built-in check is skipped).
 """
 
@@ -46,13 +48,13 @@ for dim, planeStress in [(3, False), (2, False), (2, True)]:
     else:
         C6 = np.einsum("i,ijk->jk", ci, Ei)
         C = mat.C
-        err = rel(C6, C) if dim == 3 else rel(C6[idx][:, idx], C)
-        txt = f"ci = {ci}, |sum(ci Ei) - C| / |C| = {err:.1e}"
+        red = (lambda c6: np.linalg.inv(np.linalg.inv(c6)[idx][:, idx])) if planeStress else (lambda c6: c6[idx][:, idx])
+        err = rel(C6, C) if dim == 3 else rel(red(C6), C)
+        txt = f"ci = {ci}, |reduction of sum(ci Ei) - C| / |C| = {err:.1e}"
         ok = err < 1e-12
-        if not planeStress:
-            err3 = rel(C6, Isotropic(3, E, v).C)
-            txt += f", |sum(ci Ei) - C_3D| / |C_3D| = {err3:.1e}"
-            ok = ok and err3 < 1e-12
+        err3 = rel(C6, Isotropic(3, E, v).C)
+        txt += f", |sum(ci Ei) - C_3D| / |C_3D| = {err3:.1e}"
+        ok = ok and err3 < 1e-12
         nbad += not ok
         print(f"  {'ok    ' if ok else 'DEFECT'} {label} homogeneous: {txt}")
 
@@ -62,12 +64,17 @@ for dim, planeStress in [(3, False), (2, False), (2, True)]:
     ci, Ei = mat.Walpole_Decomposition()
     C6 = np.einsum("ie,ijk->ejk", ci, Ei)
     C = mat.C
-    err = rel(C6, C) if dim == 3 else rel(C6[:, idx][:, :, idx], C)
+    if dim == 3:
+        err = rel(C6, C)
+    elif planeStress:
+        err = rel(np.linalg.inv(np.linalg.inv(C6)[:, idx][:, :, idx]), C)
+    else:
+        err = rel(C6[:, idx][:, :, idx], C)
     ok = err < 1e-12
     nbad += not ok
     print(
         f"  {'ok    ' if ok else 'DEFECT'} {label} per element: "
-        f"|sum(ci Ei) - C| / |C| = {err:.1e}"
+        f"|reduction of sum(ci Ei) - C| / |C| = {err:.1e}"
     )
 
 print(f"{nbad} defect(s)")
